@@ -650,27 +650,29 @@ pub struct ModelCase {
 }
 
 pub fn pure_tc(eos: &Arc<Model>) -> Option<f64> {
-    // try the default ladder first, then a few more guesses
-    if let Ok(s) = State::critical_point(eos, None, None, SolverOptions::default()) {
-        let t = s.temperature.to_reduced();
-        if t.is_finite() && t > 0.0 {
-            return Some(t);
+    // SAFT-type models can have additional, unphysical critical points at low
+    // temperature and high density (e.g. SAFT-VR Mie decane: 226 K vs the vapour-liquid
+    // critical point at 618 K), and the default trial ladder may land on one of them.
+    // The vapour-liquid critical point is the one at the highest temperature.
+    let mut best: Option<f64> = None;
+    let mut consider = |s: feos_core::EosResult<St>| {
+        if let Ok(s) = s {
+            let t = s.temperature.to_reduced();
+            if t.is_finite() && t > 0.0 && best.map_or(true, |b| t > b) {
+                best = Some(t);
+            }
         }
-    }
-    for t0 in [100.0, 50.0, 20.0, 1000.0, 10.0] {
-        if let Ok(s) = State::critical_point(
+    };
+    consider(State::critical_point(eos, None, None, SolverOptions::default()));
+    for t0 in [1000.0, 700.0, 500.0, 300.0, 150.0, 60.0, 20.0, 8.0] {
+        consider(State::critical_point(
             eos,
             None,
             Some(Temperature::from_reduced(t0)),
             SolverOptions::default(),
-        ) {
-            let t = s.temperature.to_reduced();
-            if t.is_finite() && t > 0.0 {
-                return Some(t);
-            }
-        }
+        ));
     }
-    None
+    best
 }
 
 impl ModelCase {
